@@ -288,6 +288,19 @@ def run(r: core.Run):
         r.cov["distinct_nontrivial"] = len(nontriv)
         r.cov["traces_validated_against_impl"] = r.cov["evaluations"]
         bad = judge(ops, impl, model)
+        # the hooks that build these statements (Model/Hooks.lean: data accumulator, graph accumulators, type binding,
+        # construct template hooks, WHERE hooks): tokens -> model parser -> model hooks, against the Statement the real
+        # hooks built (type, graph names, input / output graphs, data triples, template, WHERE clauses)
+        core.run_driver(["hooks"], stdin_path=base + ".ops", out_path=base + ".hooks")
+        hooks = core.read_lines(base + ".hooks")
+        hook_mism = [i for i, o in enumerate(ops) if o.startswith("X ") and i < len(hooks) and hooks[i] not in ("same", "-")]
+        r.notes["hooks_model"] = {"statements": sum(1 for i, o in enumerate(ops) if o.startswith("X ") and i < len(hooks) and hooks[i] == "same"),
+                                  "disagreements": len(hook_mism)}
+        if hook_mism and not bad:
+            i = hook_mism[0]
+            tie = core.TieBroken(f"hooks correspondence: the model of the statement hooks and the real hooks build different statements "
+                                 f"(type, graphs, data, template, clauses) for {len(hook_mism)} statements",
+                                 f"first: {text_of(ops[i])!r}: {hooks[i][:600]}")
         k = 0
         for i, o in enumerate(ops):
             if o.startswith("X ") and impl[i] == "ok" and kv(o, "ty") == "5" and ";" in text_of(o).split("}")[0] and k < 3:
